@@ -404,6 +404,9 @@ def errno_table_facts(run, cls, meth):
 ABORT_FAULTS = {"ssl.SSL_ERROR_EOF", "errno.ECONNABORTED"}
 
 
+SOCKET_OSERROR_CALLS = {"getpeername", "getsockname", "getsockopt", "setsockopt", "shutdown", "send", "sendall", "recv", "recv_into", "unwrap"}
+
+
 class HandshakeDomain(Domain):
     """state = (closed, flagged, connected, want, eof)
     want: the WANT_READ/WRITE arm was taken (True) / excluded (False) / not classified (None)
@@ -425,6 +428,11 @@ class HandshakeDomain(Domain):
                 return
             if is_self_call(node, "close"):
                 yield (True, flagged, connected, want, eof), NORMAL
+                return
+            if mc and mc[0] == "self.cs" and mc[1] in SOCKET_OSERROR_CALLS:
+                # a query / operation on the connection's own socket fails with OSError (ENOTCONN, EBADF) once the peer has reset it
+                yield state, NORMAL
+                yield state, RAISE("OSError")
                 return
         yield state, NORMAL
 
